@@ -184,7 +184,49 @@ def run(rep):
             # must be exactly t.binding_power() of the token just consumed (a bound variable), no arithmetic
             ok = call_is(a1, "Token::binding_power") and peel(a1["args"][0]).get("k") == "Var"
             rep.check(ok, "ASSOC", "ASSOC/recursion-power/" + fname.split("::")[-1], c["sp"], "%s recursion uses the consumed token's own binding power (no +-1)" % what, show(c))
-    rep.floor("ASSOC", 6)
+    # the node parse_led builds is (left operand, the consumed operator, right operand) in written order
+    pl = F.fn("parser::parse_led")
+    if pl is not None:
+        ctors = [n for n in walk(pl.body) if n.get("k") == "Adt" and n["adt"] == "parser::Expression" and n["variant"] == "BooleanExpression"]
+        okl = False
+        det = "%d constructors" % len(ctors)
+        if len(ctors) == 1:
+            fs = {f["name"]: f["e"] for f in ctors[0]["fields"]}
+
+            def boxed(e):
+                e = peel(e)
+                return peel(e["args"][0]) if e.get("k") == "Call" and (e.get("fn") or "").endswith("Box::<T>::new") else None
+
+            def src(e):
+                """follow `let x = y;` chains back to the defining expression"""
+                e = peel(e) if e is not None else {}
+                for _ in range(4):
+                    if e.get("k") == "Var":
+                        init = q.let_init(pl.body, e["id"])
+                        if init is None:
+                            return e
+                        e = peel(init)
+                    else:
+                        break
+                return e
+            l, r, sy = src(boxed(fs["0"])), src(boxed(fs["2"])), src(fs["1"])
+            lparam = strip_ref(pl.thir["params"][0]["pat"]).get("id")
+            okleft = l.get("k") == "Var" and l["id"] == lparam
+            rr = r["arg"] if r.get("k") == "Try" else r
+            okright = call_is(peel(rr), "parser::parse_expr")
+            # the symbol comes out of the consumed Token::Operator
+            oksym = False
+            sid = sy["id"] if sy.get("k") == "Var" else q.base_var(sy)
+            for pat in q.all_patterns(pl.body):
+                for alt in or_pats(pat):
+                    for pp in q._walk_pat(alt):
+                        v = variant_of(pp)
+                        if v and v[1] == "Operator" and any(b[1] == sid for b in facts.pat_binds(pp)):
+                            oksym = True
+            okl = okleft and okright and oksym
+            det = "left=%s right=%s symbol=%s" % (show(l)[:30], show(r)[:40], show(sy)[:20])
+        rep.check(okl, "ASSOC", "ASSOC/led-operand-order", pl.sp, "parse_led builds (left operand, consumed operator, parse_expr(..) result) in that order, with no swap", det)
+    rep.floor("ASSOC", 7)
 
     # ---------------------------------------------------------------- PAREN
     rep.describe("PAREN", "the `(` arm collects tokens to the matching `)` with a depth counter and returns parse(&inner) unchanged; parser::parse rejects trailing tokens")
